@@ -11,3 +11,11 @@ CHECKS = {
              level_note="Trusts the chain simulator to play Tendermint faithfully (ABCI call order, block store, tx indexer), tm-db MemDB, rapid. Process-global side effects of a simulated "
                         "upgrade are visible only if a later block depends on them."),
 }
+
+CHECKS["C12"] = c("abci", "TestC12", dict(checks=60, timeout=600), dict(checks=500, shards=14, timeout=3000),
+             technique="repeated-execution and metamorphic (time-shift) property-based testing of the real application over generated block histories",
+             design_ref="DESIGN.md §7 C12",
+             level_text="Same generated chain data executed 3x (globals reset, different GOMAXPROCS) must give identical transcripts; the same history shifted to both sides of the "
+                        "local wall clock must give identical result codes, validator updates and balances. Exploration: bounded histories; nondeterminism that needs a particular "
+                        "goroutine interleaving inside one ABCI call is not forced.",
+             level_note="In-process repetition (Go re-randomises map iteration order on every range); fresh-process repetition is not part of the quick tier. Trusts the chain simulator and rapid.")
